@@ -56,6 +56,9 @@ func c16Minters() []mintCfg {
 		{Start: -100 * time.Second, Periods: []mp{{Kind: ref.Linear, Amount: "7", End: 30 * time.Second}, {Kind: ref.ExpStep, Amount: "1000003", Step: 10 * time.Second, Mult: "0.333333333333333333", End: 95 * time.Second}, {Kind: ref.NoMint}}},
 		{Periods: []mp{{Kind: ref.NoMint, End: 50 * time.Second}, {Kind: ref.ExpStep, Amount: "100", Step: time.Second, Mult: "1"}}},
 		{Periods: []mp{{Kind: ref.ExpStep, Amount: "9", Step: 7 * time.Second, Mult: "0", End: 20 * time.Second}, {Kind: ref.Linear, Amount: "0", End: 40 * time.Second}, {Kind: ref.NoMint}}},
+		// the upgrade happens after one / two periods have already ended
+		{Start: -200 * time.Second, Periods: []mp{{Kind: ref.Linear, Amount: "1000", End: -100 * time.Second}, {Kind: ref.ExpStep, Amount: "1000003", Step: 10 * time.Second, Mult: "0.5", End: 60 * time.Second}, {Kind: ref.NoMint}}},
+		{Start: -300 * time.Second, Periods: []mp{{Kind: ref.ExpStep, Amount: "100", Step: 30 * time.Second, Mult: "0.5", End: -200 * time.Second}, {Kind: ref.NoMint, End: -1 * time.Second}, {Kind: ref.Linear, Amount: "777", End: 50 * time.Second}, {Kind: ref.ExpStep, Amount: "40000000000000", Step: 4 * yearD, Mult: "0.5"}}},
 	}
 }
 
@@ -559,7 +562,7 @@ func runC16(rc *RunCtx) {
 	rc.Level = "exploration"
 	rc.Cov = map[string]interface{}{
 		"evaluations": int(st.cases), "distinct_nontrivial": int(st.splitDone),
-		"rule":    "product alphabet of pre-upgrade stores written in the previous format (v2 pools under the old prefix, old traces, legacy x/params subspaces, module versions 2): the hard-coded owner's pools over subsets of {Validators pool, Advisors pool, other} in several orders with currently-locked of the validators pool in {0, sum-1, sum, sum+1, 2*sum} x with/without sent+withdrawn history; a second owner's pool of the same type; vesting type present/absent; the four hard-coded accounts in {absent, base, continuous, continuous+delegated, delayed} (uniform and mixed); 6 legacy minter and 4 legacy distributor parameter sets. Each case runs the WHOLE registered v1.2.0 handler through UpgradeKeeper.ApplyUpgrade. Non-trivial = cases in which the validators-pool split was actually applied; every case is a distinct input.",
+		"rule":    "product alphabet of pre-upgrade stores written in the previous format (v2 pools under the old prefix, old traces, legacy x/params subspaces, module versions 2): the hard-coded owner's pools over subsets of {Validators pool, Advisors pool, other} in several orders with currently-locked of the validators pool in {0, sum-1, sum, sum+1, 2*sum} x with/without sent+withdrawn history; a second owner's pool of the same type; vesting type present/absent; the four hard-coded accounts in {absent, base, continuous, continuous+delegated, delayed} (uniform and mixed); 8 legacy minter and 4 legacy distributor parameter sets. Each case runs the WHOLE registered v1.2.0 handler through UpgradeKeeper.ApplyUpgrade. Non-trivial = cases in which the validators-pool split was actually applied; every case is a distinct input.",
 		"samples": samples, "split_applied": int(st.splitDone), "split_skipped": int(st.splitSkipped), "accounts_shifted": int(st.shifted), "exhaustive": true,
 	}
 	rc.Assume = []string{"the handler runs in-process on a store branch of an application whose genesis has no interchain-accounts state; the ICA module's own InitModule is trusted"}
